@@ -26,6 +26,8 @@ use hx_common::*;
 mod mem;
 #[path = "c11/text.rs"]
 mod text;
+#[path = "c11/sync.rs"]
+mod sync;
 
 // ---------------------------------------------------------------------------------------------
 // scripts
@@ -1465,6 +1467,7 @@ fn exec_line(line: &str, ex: &mut Exec) -> String {
         "wa" | "wva" | "wseq" => exec_writer_line(&w, line, ex),
         "cp" => exec_copy(&w, line, ex),
         "rs" | "rsat" => text::exec(&w, line, ex),
+        "ss" => sync::exec(&w, line, ex),
         _ => mem::exec(&w, line, ex),
     }
 }
@@ -1811,6 +1814,7 @@ fn generate(tier: &str, rng: &mut Rng) -> Vec<Case> {
     }
     mem::generate(tier, rng, &mut cases);
     text::generate(tier, rng, &mut cases);
+    sync::generate(tier, rng, &mut cases);
     cases
 }
 
